@@ -609,9 +609,13 @@ def ev(n, env, funcs=None):
                         raise ValueError('%s() iterable argument is empty' % fname)
                 pick = min if fname == 'min' else max
                 return pick(its_, key=kw_['key']) if kw_.get('key') is not None else pick(its_)
-        if isinstance(f, ast.Name) and fname in ('all', 'any', 'sum') and len(args) == 1 and isinstance(args[0], (list, tuple)):
+        if isinstance(f, ast.Name) and fname in ('all', 'any', 'sum') and len(args) == 1 and isinstance(args[0], (list, tuple)) and not n.keywords:
             return {'all': all, 'any': any, 'sum': sum}[fname](args[0])
-        if fname in ('min', 'max') and args:
+        if isinstance(f, ast.Name) and fname == 'sum' and (len(args) == 2 or n.keywords) and isinstance(args[0], (list, tuple)):
+            kw_ = _kw(n, env, funcs)
+            if set(kw_) <= {'start'}:
+                return sum(args[0], args[1] if len(args) == 2 else kw_.get('start', 0))
+        if fname in ('min', 'max') and args and not n.keywords:
             if len(args) == 1 and isinstance(args[0], (list, tuple)):
                 args = list(args[0])
             return (min if fname == 'min' else max)(args)
